@@ -1,5 +1,7 @@
 //! vh — conformance harness binding the TLA+ specification in /verif/spec to the real engine.
 mod astjson;
+mod eval;
+mod valjson;
 mod lex;
 mod parse;
 mod total;
@@ -21,6 +23,10 @@ fn main() {
         "total-record" => total::record(rest),
         "pump" => total::pump(rest),
         "pump-list" => total::pump_list(),
+        "builtins-replay" => eval::builtins_replay(rest),
+        "builtins-record" => eval::builtins_record(rest),
+        "literal-record" => eval::literal_record(rest),
+        "exec-one" => eval::exec_one(rest),
         "render-replay" => parse::render_replay(rest),
         "render-record" => parse::render_record(rest),
         "render-one" => parse::render_one(rest),
